@@ -20,16 +20,27 @@ Qed.
 
 (* ---------- corner ordering ---------- *)
 Lemma Qmin_lt (a b : Q) : a < b -> Qmin a b = a.
-Proof. intro H. unfold Qmin, GenericMinMax.gmin. apply Qlt_alt in H. rewrite H. reflexivity. Qed.
+Proof.
+  intro H. unfold Qmin, GenericMinMax.gmin. destruct (a ?= b) eqn:E; try reflexivity.
+  apply Qgt_alt in E. exfalso. lra.
+Qed.
+Arguments Qmin_lt {a b}.
 
 Lemma Qmax_lt (a b : Q) : a < b -> Qmax a b = b.
-Proof. intro H. unfold Qmax, GenericMinMax.gmax. apply Qlt_alt in H. rewrite H. reflexivity. Qed.
+Proof.
+  intro H. unfold Qmax, GenericMinMax.gmax. destruct (a ?= b) eqn:E; try reflexivity.
+  - apply Qeq_alt in E. exfalso. lra.
+  - apply Qgt_alt in E. exfalso. lra.
+Qed.
+Arguments Qmax_lt {a b}.
 
 Lemma map2_min_lt (lo hi : list Q) : Forall2 (fun a b => a < b) lo hi -> map2 Qmin lo hi = lo.
 Proof. induction 1; simpl; [reflexivity|]. rewrite Qmin_lt by assumption. congruence. Qed.
+Arguments map2_min_lt {lo hi}.
 
 Lemma map2_max_lt (lo hi : list Q) : Forall2 (fun a b => a < b) lo hi -> map2 Qmax lo hi = hi.
 Proof. induction 1; simpl; [reflexivity|]. rewrite Qmax_lt by assumption. congruence. Qed.
+Arguments map2_max_lt {lo hi}.
 
 Lemma forallb2_ltb (lo hi : list Q) : Forall2 (fun a b => a < b) lo hi -> forallb2 Qltb lo hi = true.
 Proof.
@@ -37,6 +48,7 @@ Proof.
   unfold Qltb. apply negb_true_iff. destruct (Qle_bool y x) eqn:E; [|reflexivity].
   apply Qle_bool_iff in E. exfalso. apply (Qlt_not_le _ _ H). exact E.
 Qed.
+Arguments forallb2_ltb {lo hi}.
 
 Lemma edges_nonzero (lo hi : list Q) :
   Forall2 (fun a b => a < b) lo hi -> existsb (fun e => Qeq_bool e 0) (edges_of lo hi) = false.
@@ -45,9 +57,11 @@ Proof.
   destruct (Qeq_bool (y - x) 0) eqn:E; [|reflexivity].
   apply Qeq_bool_iff in E. exfalso. lra.
 Qed.
+Arguments edges_nonzero {lo hi}.
 
 Lemma Forall2_length' {A B} (P : A -> B -> Prop) l1 l2 : Forall2 P l1 l2 -> length l1 = length l2.
 Proof. induction 1; simpl; congruence. Qed.
+Arguments Forall2_length' {A B P l1 l2}.
 
 (* Region(p1 = lo, p2 = hi, dims, units, tolerance_factor) on ordered corners *)
 Lemma mk_region_ordered (lo hi : list Q) (ds us : option (list string)) (t : Q) :
@@ -71,6 +85,7 @@ Proof.
     + rewrite Hu, Nat.eqb_refl. simpl. rewrite (edges_nonzero Hlt). reflexivity.
     + rewrite (edges_nonzero Hlt). reflexivity.
 Qed.
+Arguments mk_region_ordered {lo hi} ds us t.
 
 (* Region(pmin = lo, pmax = hi, …): the strict-order test passes on ordered corners *)
 Lemma mk_region_minmax_ordered (lo hi : list Q) (ds us : option (list string)) (t : Q) :
@@ -84,6 +99,7 @@ Proof.
   intros Hlt Hpos Hd Hu. unfold mk_region_minmax.
   rewrite (forallb2_ltb Hlt). simpl. apply mk_region_ordered; assumption.
 Qed.
+Arguments mk_region_minmax_ordered {lo hi} ds us t.
 
 (* … and rejects corners that are not strictly ordered (same length) *)
 Lemma mk_region_minmax_unordered (lo hi : list Q) ds us t :
@@ -96,7 +112,7 @@ Qed.
 Lemma truncQ_inject (z : Z) : truncQ (inject_Z z) = z.
 Proof.
   unfold truncQ, inject_Z, Qle_bool, Qceiling, Qfloor, Qopp. simpl.
-  destruct (0 * 1 <=? z * 1)%Z; rewrite ?Z.div_1_r; lia.
+  destruct (0 <=? z * 1)%Z; rewrite ?Z.div_1_r; lia.
 Qed.
 
 Lemma cast_integral (k : ckind) (x : Q) : integral x -> cast k x = x.
@@ -132,6 +148,7 @@ Proof.
   rewrite <- (map_id (lo ++ hi)) at 2. apply map_ext_in. intros x Hx.
   apply cast_integral. apply in_app_or in Hx. rewrite Forall_forall in A, B. destruct Hx; auto.
 Qed.
+Arguments cast_corners {tk k lo hi}.
 
 Lemma firstn_app_exact {A} (l1 l2 : list A) : firstn (length l1) (l1 ++ l2) = l1.
 Proof. rewrite firstn_app, Nat.sub_diag, firstn_all. simpl. apply app_nil_r. Qed.
@@ -161,6 +178,18 @@ Proof.
   - intro E. specialize (Himp E). inversion Himp; assumption.
 Qed.
 
+Lemma rows_exact (r : region) (tk : ckind) (sk : list ckind) (ss : list (string * region)) :
+  Forall2 (wf_sub r) sk ss -> (tk = KInt -> Forall (fun k => k = KInt) sk) ->
+  map (sub_row tk) ss = map (fun s => pmin (snd s) ++ pmax (snd s)) ss.
+Proof.
+  intro H. induction H as [|k s sk ss Hw _ IH]; intro Himp; simpl; [reflexivity|].
+  f_equal.
+  - unfold sub_row. destruct Hw as (_ & Hc & _). apply (cast_corners Hc).
+    intro E. specialize (Himp E). inversion Himp; assumption.
+  - apply IH. intro E. specialize (Himp E). inversion Himp; assumption.
+Qed.
+Arguments rows_exact {r tk sk ss}.
+
 Lemma combine_fst_snd {A B} (l : list (A * B)) : combine (map fst l) (map snd l) = l.
 Proof. induction l as [|[a b] l IH]; simpl; congruence. Qed.
 
@@ -170,6 +199,7 @@ Proof. unfold zlist_eqb. induction l; simpl; [reflexivity|]. rewrite Z.eqb_refl.
 
 Lemma forallb_pos (l : list Z) : Forall (fun k => 0 < k)%Z l -> forallb (fun k => (0 <? k)%Z) l = true.
 Proof. induction 1; simpl; [reflexivity|]. rewrite IHForall, andb_true_r. apply Z.ltb_lt. assumption. Qed.
+Arguments forallb_pos {l}.
 
 Lemma mk_mesh_n_ok (r : region) (ns : list Z) :
   length ns = length (pmin r) -> Forall (fun k => 0 < k)%Z ns -> mk_mesh_n r ns = OK (mkMesh r ns "" []).
@@ -230,7 +260,7 @@ Section Roundtrip.
     { destruct ss as [|s0 ss0]; [reflexivity|].
       unfold load_subs.
       rewrite (@load_rows r tk sk (s0 :: ss0) Hpos Hsubs).
-      - simpl bind. rewrite combine_fst_snd. reflexivity.
+      - simpl bind. rewrite combine_fst_snd. destruct s0. reflexivity.
       - intro E. apply (table_kind_int ck sk E). }
     rewrite Hsb. simpl.
     rewrite (mk_mesh_n_ok r ns Hnl Hnp). simpl.
@@ -255,7 +285,7 @@ Section Roundtrip.
       specialize (Hconv eq_refl). rewrite <- (map_id (f_vals f)) at 2.
       apply map_ext_in. rewrite Forall_forall in Hconv. auto.
     - destruct (f_dk f); reflexivity.
-    - destruct (f_dk f); congruence.
+    - destruct (f_dk f); simpl; congruence.
   Qed.
 
   Theorem roundtrip_state (f : fstate V) :
@@ -279,17 +309,10 @@ Section Roundtrip.
            map (fun s => pmin (snd s) ++ pmax (snd s)) (subs (f_mesh f)))).
   Proof.
     intros (_ & _ & _ & _ & _ & _ & _ & Hsubs & _) Hne. unfold encode. simpl.
-    destruct (subs (f_mesh f)) as [|s0 ss0] eqn:E; [congruence|].
-    f_equal. f_equal. f_equal.
-    set (tk := table_kind (f_ck f) (f_subk f)).
-    assert (Himp : tk = KInt -> Forall (fun k => k = KInt) (f_subk f))
+    assert (Himp : table_kind (f_ck f) (f_subk f) = KInt -> Forall (fun k => k = KInt) (f_subk f))
       by (intro E'; apply (table_kind_int _ _ E')).
-    clear E Hne. revert Himp. generalize (s0 :: ss0) as ss, tk. intros ss tk0 Himp.
-    induction Hsubs as [|k s sk ss' Hw _ IH]; simpl; [reflexivity|].
-    f_equal.
-    - unfold sub_row. destruct Hw as (_ & Hc & _). apply (cast_corners Hc).
-      intro E'. specialize (Himp E'). inversion Himp; assumption.
-    - apply IH. intro E'. specialize (Himp E'). inversion Himp; assumption.
+    rewrite (rows_exact Hsubs Himp).
+    destruct (subs (f_mesh f)); [congruence | reflexivity].
   Qed.
 End Roundtrip.
 
@@ -317,6 +340,7 @@ Lemma edges_nonzero_minmax (p1 p2 : list Q) :
   Forall2 (fun a b => ~ a == b) p1 p2 ->
   existsb (fun e => Qeq_bool e 0) (edges_of (map2 Qmin p1 p2) (map2 Qmax p1 p2)) = false.
 Proof. intro H. apply edges_nonzero. apply minmax_ordered. assumption. Qed.
+Arguments edges_nonzero_minmax {p1 p2}.
 
 (* Region(p1, p2) with the corners in any order *)
 Lemma mk_region_any_order (p1 p2 : list Q) (t : Q) :
@@ -330,6 +354,7 @@ Proof.
   destruct (length p1 =? 0)%nat eqn:E0; [apply Nat.eqb_eq in E0; lia|].
   simpl. rewrite (edges_nonzero_minmax H). reflexivity.
 Qed.
+Arguments mk_region_any_order {p1 p2} t.
 
 Definition wf_side (nd : nat) (s : side_region) : Prop :=
   Forall2 (fun a b => a < b) (sd_pmin s) (sd_pmax s) /\ length (sd_pmin s) = nd /\
@@ -377,12 +402,13 @@ Theorem legacy_read {V} (conv : V -> V) (l : h5legacy V) :
           (conv_vals conv (l_dk l) (l_arr l))
           (repeat true (Z.to_nat (zprod (l_n l))))).
 Proof.
-  intros Hne Hpos Hnl Hnp Hdim Hshape Hside r.
-  unfold decode, decode_legacy.
-  rewrite (mk_region_any_order default_tf Hne Hpos). fold r. simpl bind.
+  intros Hne Hpos Hnl Hnp Hdim Hshape Hside r. subst r.
+  unfold decode, decode_legacy, legacy_region.
+  rewrite (mk_region_any_order default_tf Hne Hpos). simpl bind.
+  set (r := mkRegion (map2 Qmin (l_p1 l) (l_p2 l)) _ _ _ _).
   assert (Hrl : length (pmin r) = length (l_p1 l)).
-  { unfold r, legacy_region. simpl. apply map2_length_eq. apply (Forall2_length' Hne). }
-  rewrite (mk_mesh_n_ok r (l_n l)) by (rewrite Hrl; assumption). simpl bind.
+  { unfold r. simpl. apply map2_length_eq. apply (Forall2_length' Hne). }
+  rewrite (mk_mesh_n_ok r (l_n l)) by (rewrite ?Hrl; assumption). simpl bind.
   assert (Hss : match l_side l with None => OK [] | Some items => mapM (load_side r) items end
                 = OK (legacy_subs r (l_side l))).
   { destruct (l_side l) as [items|]; [|reflexivity].
